@@ -4,7 +4,7 @@
 From Coq Require Import List NArith ZArith Bool.
 From Qryn Require Import model.Ingest model.PushHandler model.IngestSpec model.IngestSched proofs.IngestBase proofs.IngestAck
   proofs.IngestSpecProofs proofs.IngestHandler proofs.IngestDrain proofs.IngestLive proofs.IngestLiveAll proofs.IngestRows
-  proofs.IngestWait proofs.IngestStop.
+  proofs.IngestWait proofs.IngestStop model.IngestFair proofs.IngestFairProofs.
 Import ListNotations.
 
 (* For every configuration (workers of any kind / round-robin group / maxQueueSize, retry count), every
@@ -170,3 +170,68 @@ Theorem stopped_worker_never_flushes : forall tr sv sv' vs,
   running sv = false -> srun sv tr = Some (sv', vs) -> running sv' = false /\ results sv' = results sv.
 Proof. exact IngestStop.stopped_worker_never_flushes. Qed.
 Print Assumptions stopped_worker_never_flushes.
+
+(* "... while the database keeps answering", with a database that also REFUSES connections and leaves watchdog pings
+   unanswered (model/IngestFair.v).  fetchLoopIteration answers a refused connection by returning with insertCtx still
+   done -- Run calls it again, it dials again --, a failed ping by dropping the client.  An adversary adv picks the
+   moments of these faults (a dial can only be refused while the worker dials, a ping only fails between two inserts);
+   the fairness hypothesis is that it does so finitely often: at most b times, b arbitrary.  For every reachable state
+   (no Stop, routed sub-requests), every policy db of INSERT outcomes, every adversary and every budget: the step
+   next_act_f picks -- the adversary's fault if it is enabled and the budget allows, else the system's own next step --
+   is enabled, brings no new work, and decreases the variant mu g + 2 b; when nothing is picked everything is finished. *)
+Theorem scheduler_never_stuck_while_the_database_answers : forall cfg n tr g es (db : gstate -> nat -> bool) adv b,
+  grun (ginit cfg n) tr = Some (g, es) -> forallb (act_live (sig_of_cfg cfg)) tr = true ->
+  match next_act_f db adv g b with
+  | Some (a, b') => nonew a = true /\ act_live (sig_of_cfg cfg) a = true /\
+                    (forall s ok, a = GSvc s (SDoReturn ok) -> ok = db g s) /\
+                    b = (b' + (if is_fault a then 1 else 0))%nat /\
+                    exists g' es', gstep g a = Some (g', es') /\ (mu g' + 2 * b' < mu g + 2 * b)%nat
+  | None => all_done g = true
+  end.
+Proof.
+  intros cfg n tr g es db adv b Hrun Hl.
+  exact (sched_f_progress (sig_of_cfg cfg) db adv g b (reachable_PI _ _ _ _ _ Hrun Hl)).
+Qed.
+Print Assumptions scheduler_never_stuck_while_the_database_answers.
+
+(* Hence the run of that scheduler (at most mu g + 2 b steps, tr') ends with everything finished, the adversary having
+   injected count_faults tr' = b - b' faults, and in the event log of the whole run every push that had arrived has
+   exactly one answer. *)
+Theorem every_push_is_answered_exactly_once_while_the_database_answers :
+  forall cfg n tr g es (db : gstate -> nat -> bool) adv b,
+  grun (ginit cfg n) tr = Some (g, es) -> forallb (act_live (sig_of_cfg cfg)) tr = true ->
+  exists tr' g' b' es',
+    run_sched_f db adv (muf g b) g b = (g', b', tr', es') /\
+    grun g tr' = Some (g', es') /\ forallb nonew tr' = true /\ follows db g tr' = true /\ (length tr' <= mu g + 2 * b)%nat /\
+    (count_faults tr' + b' = b)%nat /\
+    all_done g' = true /\ length (hs g') = length (hs g) /\
+    forall h, (h < length (hs g))%nat -> count_occ Nat.eq_dec (answered (es ++ es')) h = 1%nat.
+Proof. exact every_push_answered_once_f. Qed.
+Print Assumptions every_push_is_answered_exactly_once_while_the_database_answers.
+
+(* The fairness hypothesis is needed, (a): refusals must be finite.  A refused connection leaves the system exactly
+   where it was, so any number m of them is a schedule of steps without new work that ends where it began ... *)
+Theorem refused_connections_lead_nowhere : forall g s g1 e1, gstep g (GSvc s (SDial false)) = Some (g1, e1) ->
+  forall m, grun g (repeat (GSvc s (SDial false)) m) = Some (g, repeat (EDial s false) m) /\
+            forallb nonew (repeat (GSvc s (SDial false)) m) = true.
+Proof. exact refused_dials_lead_nowhere. Qed.
+Print Assumptions refused_connections_lead_nowhere.
+
+(* ... hence without a bound on the refusals no number of steps guarantees the answers (witness dial_demo_state: a
+   reachable state with an open push whose worker is dialling). *)
+Theorem completion_without_fairness_refuted :
+  ~ (forall cfg n tr g es, grun (ginit cfg n) tr = Some (g, es) -> forallb (act_live (sig_of_cfg cfg)) tr = true ->
+       exists bound, forall tr' g' es', forallb nonew tr' = true -> grun g tr' = Some (g', es') ->
+         (bound <= length tr')%nat -> all_done g' = true).
+Proof. exact bounded_completion_needs_finite_refusals. Qed.
+Print Assumptions completion_without_fairness_refuted.
+
+(* The fairness hypothesis is needed, (b): a Do must return.  blocked g h k: push h is unanswered, its parser has
+   finished and its first sub-push is blocked in Get() of an attempt whose promise is not completed.  NO continuation
+   in which no Do returns -- new pushes, direct requests, flushes, dials, Stop included -- answers push h: it stays
+   blocked and no EAnswer h is emitted.  (dial_demo_state: such states are reachable.) *)
+Theorem unanswered_until_a_do_returns : forall tr g g' es h k,
+  blocked g h k -> forallb no_do_return tr = true -> grun g tr = Some (g', es) ->
+  blocked g' h k /\ ~ In h (answered es).
+Proof. exact grun_blocked. Qed.
+Print Assumptions unanswered_until_a_do_returns.
